@@ -25,7 +25,7 @@ var (
 )
 
 // handler results
-var resultNames = []string{"out0", "out1", "out2", "out2+cid", "err-plain", "err-wrapped-listed", "err-listed+out", "panic-value", "panic-error", "panic-nil"}
+var resultNames = []string{"out0", "out1", "out2", "out2+cid", "err-plain", "err-wrapped-plain", "err-wrapped-listed", "err-listed+out", "panic-value", "panic-error", "panic-nil"}
 
 type outcome struct {
 	outs     []*message.Message
@@ -48,6 +48,8 @@ func produce(kind string, m *message.Message) ([]*message.Message, error) {
 		return o, nil
 	case "err-plain":
 		return nil, plain
+	case "err-wrapped-plain": // an annotated error that is not on any list: it comes back as it is, annotation included
+		return nil, errors.Wrap(plain, "while storing the order")
 	case "err-wrapped-listed":
 		return nil, errors.Wrap(listed, "while doing something")
 	case "err-listed+out":
